@@ -191,6 +191,59 @@ func anyDoc(doc map[string]any) any {
 	return v
 }
 
+// c05Chains: runs of three operands of one operator, first operand of every kind (a one-pass evaluation of a run must
+// treat the first operand exactly as the pairwise rule does)
+func c05Chains(c *Case) []c05Expr {
+	var exprs []c05Expr
+	mids := []opnd{strOpnd("s"), strOpnd(""), strOpnd("7"), numOpnd(2), numOpnd(-0.5)}
+	lasts := []opnd{strOpnd("t"), numOpnd(1), numOpnd(2.5)}
+	for _, op := range []string{"+", "-", "*"} {
+		for li, l := range c05Grid {
+			for mi, m := range mids {
+				for ri, r := range lasts {
+					for mode := 0; mode < 2; mode++ {
+						x := c05Expr{doc: map[string]any{}}
+						le, ok := supply(l, mode, fmt.Sprintf("cl%d_%d_%d_%d", li, mi, ri, mode), &x.setup, x.doc)
+						if !ok {
+							continue
+						}
+						x.e = Bin(op, Bin(op, le, m.lit()), r.lit())
+						x.id = fmt.Sprintf("chain %s %s %s %s %s|m%d", l.name, op, m.name, op, r.name, mode)
+						x.key = x.id
+						c.Count("chains_of_three:" + op)
+						exprs = append(exprs, x)
+					}
+				}
+			}
+		}
+	}
+	// subjects with line breaks against patterns whose '.' / '^' / '$' / classes behave differently under regex flags
+	subj := []string{"a\\nb", "\\n", "x\\ny\\nz", "A\\nb", "a\\tb", "ab", "BEGIN\\nxx\\nEND", "line1\\nline2"}
+	pats := []string{"a.b", ".", "^a.*b$", "a.*b", "^b", "a$", "^.$", "x.y.z", "[^a]b", "\\\\s", "(?i)a.B", "BEGIN.*END", "^line2", "line1$", "\\\\n", "a\\nb"}
+	for si, sv := range subj {
+		for pi, pv := range pats {
+			for _, op := range []string{"~", "!~"} {
+				for form := 0; form < 2; form++ {
+					x := c05Expr{doc: map[string]any{}}
+					var r Expr = &RegexLit{Pat: pv}
+					if form == 1 {
+						r = S(pv)
+					}
+					if form == 0 && strings.Contains(pv, "\\n") {
+						continue // a regex literal has no escape processing of its own
+					}
+					x.e = Bin(op, S(sv), r)
+					x.id = fmt.Sprintf("lines %d %s %d f%d", si, op, pi, form)
+					x.key = x.id
+					c.Count("line_break_subjects")
+					exprs = append(exprs, x)
+				}
+			}
+		}
+	}
+	return exprs
+}
+
 // c05Reentrant: one operator site is re-entered through recursion while its other operand is
 // still pending (per-site scratch state would show).
 func c05Reentrant(c *Case) {
@@ -251,7 +304,7 @@ func randDouble(rng *rand.Rand) float64 {
 	return rng.Float64()*200 - 100
 }
 
-var c05StrPool = []string{"", " ", "0", "00", "1", "10", "9", "-3", "+4", "1e3", "1E-2", ".5", "5.", "1.5", "abc", "ABC", "a b", "é", "日本", "x1", "1x", " 1", "1 ", "--1", "1e", "e1", "a(", "^b", "b$", "[a-c]+", "a|b", "(a", "a{2}", "\\\\d"}
+var c05StrPool = []string{"a\\nb", "\\n", "a.b", ".", "^a.*b$", "a\\tb", "x\\ny\\nz", "", " ", "0", "00", "1", "10", "9", "-3", "+4", "1e3", "1E-2", ".5", "5.", "1.5", "abc", "ABC", "a b", "é", "日本", "x1", "1x", " 1", "1 ", "--1", "1e", "e1", "a(", "^b", "b$", "[a-c]+", "a|b", "(a", "a{2}", "\\\\d"}
 
 func randStrRaw(rng *rand.Rand) string {
 	if rng.IntN(3) > 0 {
@@ -345,6 +398,17 @@ func c05Run(c *Case) {
 			c.Count("op:" + op)
 			c.Count("samevar")
 			exprs = append(exprs, x)
+			if o.kind != "unset" {
+				// the same value under a second name, inside a container and as a member
+				y := c05Expr{doc: map[string]any{}}
+				an := fmt.Sprintf("al%d", vi)
+				y.setup = append(y.setup, ES(Asg(V(vn), o.lit())), ES(Asg(V(an), V(vn))), ES(Asg(V(an+"h"), &ObjectLit{Keys: []string{"m"}, Quoted: []bool{false}, Vals: []Expr{V(vn)}})))
+				y.e = Arr(Bin(op, V(vn), V(an)), Bin(op, V(an), V(vn)), Bin(op, Mem(V(an+"h"), "m"), V(vn)))
+				y.id = fmt.Sprintf("aliased %s %s", o.name, op)
+				y.key = y.id
+				c.Count("aliased-operands")
+				exprs = append(exprs, y)
+			}
 		}
 	case i == nb+3+len(c05IsTypes)+len(c05BinOps):
 		// short circuit: the right operand has a visible effect
@@ -389,7 +453,7 @@ func c05Run(c *Case) {
 		}
 	case i == nb+3+len(c05IsTypes)+len(c05BinOps)+1+len(c05BinOps):
 		c05Reentrant(c)
-		return
+		exprs = c05Chains(c)
 	default:
 		// sampled: random doubles and strings through every arithmetic / comparison / match operator
 		rng := c.Rng
@@ -436,7 +500,7 @@ func c05Run(c *Case) {
 func init() {
 	register(&Prop{
 		ID: "C05", Level: "exploration",
-		Rule:          "enumerated: every binary operator x every ordered pair of grid values (10 numbers, 10 strings, both bools, null, unset, 2 arrays, 2 objects, 2 regexes, user function, native) x supply mode (literal, variable, document field); every unary operator and every `is` form x every grid value x mode; x op x on one variable; short-circuit with a counting right operand; `!` / `-` written directly on a parenthesised binary expression for every operator x ordered pair of grid values (literal and variable); 400 recursive functions whose return expression re-enters one operator site while its other operand is pending ((n o1 k) o2 r(n-1), mirrored, two recursive calls, string building); sampled: random doubles/strings. A case is one (operator, left value) row; distinct_nontrivial counts distinct (operator, left value, right value, mode) points, every point of the table being non-trivial.",
+		Rule:          "enumerated: every binary operator x every ordered pair of grid values (10 numbers, 10 strings, both bools, null, unset, 2 arrays, 2 objects, 2 regexes, user function, native) x supply mode (literal, variable, document field); every unary operator and every `is` form x every grid value x mode; x op x on one variable and on two names / a member holding the same value; short-circuit with a counting right operand; `!` / `-` written directly on a parenthesised binary expression for every operator x ordered pair of grid values (literal and variable); runs of three operands of + - * whose first operand is every grid value (literal and variable); 400 recursive functions whose return expression re-enters one operator site while its other operand is pending ((n o1 k) o2 r(n-1), mirrored, two recursive calls, string building); sampled: random doubles/strings. A case is one (operator, left value) row; distinct_nontrivial counts distinct (operator, left value, right value, mode) points, every point of the table being non-trivial.",
 		NumCases:      c05Cases,
 		Run:           c05Run,
 		MinConclusive: func(tier string) int { return 400 },
